@@ -172,6 +172,7 @@ Proof.
   exists ast. split; [reflexivity|].
   exists (4 * List.length (escript e) + 40)%nat.
   destruct (compile_program (4 * List.length (escript e) + 40) ast) as [pc| | |]; try discriminate H.
+  destruct (negb (Spec.Moded.well_moded ast)); [discriminate H|].
   match type of H with
   | (match ?x with Some _ => _ | None => _ end) = _ => destruct x; try discriminate H
   end.
